@@ -43,6 +43,17 @@ theorem get_data_trim_is_model (a : Wrap.Arr α) (rows cols S T V : Nat) :
     Py.get_data_trim a [rows, cols, S, T, V] = .ok (Wrap.stackTrim a T V) :=
   Src.get_data_trim_eq a rows cols S T V
 
+/-- **the thorough check of `_chk_order` as written in dcmstack.py passes iff every cell of the grid
+    holds the right file**: at (vector `v`, time `t`, slice `s`) of the sorted list the vector ordinate is
+    that of the block's first file and the slice position is the `s`-th distinct position; otherwise
+    it raises InvalidStackError — for every S, T, V -/
+theorem chk_order_check_is_cellwise (files : List (Int × Int × Int)) (pos : List Int) (S T V : Nat) :
+    Py.chk_order_check files pos S T V =
+      if (List.range V).all (fun v => (List.range T).all fun t => (List.range S).all fun s =>
+          cellOk files pos S T v t s)
+      then .ok () else .error PyErr.invalidStack :=
+  Src.chk_order_check_eq files pos S T V
+
 /-- the translator translated every function of dcmstack.py it is asked for -/
 theorem translator_complete_stack : Gen.codeMissingStack = [] := rfl
 
